@@ -13,6 +13,7 @@ import Driver.OpsCalWire
 import Driver.OpsFront
 import Driver.OpsClient
 import Driver.OpsObjWire
+import Driver.OpsDavWire
 namespace Driver
 
 def dispatch (op : String) (args : List SExp) : Option OpResult :=
@@ -59,6 +60,11 @@ def dispatch (op : String) (args : List SExp) : Option OpResult :=
   | "card.dec" => opCardDec args
   | "card.encmg" => opCardEncMg args
   | "card.decmg" => opCardDecMg args
+  | "dav.stat" => opDavStat args
+  | "dav.open" => opDavOpen args
+  | "dav.readdir" => opDavReadDir false args
+  | "dav.readdir-local" => opDavReadDir true args
+  | "dav.op" => opDavOp args
   | "obj.cals" => opObjCals args
   | "obj.books" => opObjBooks args
   | "obj.calobjs" => opObjObjs "calendar-object" "calendar-data" true args
